@@ -350,6 +350,8 @@ def shrink_candidates(sc):
         yield c
     # splice out type-preserving one-to-one nodes
     for i, n in enumerate(graph):
+        if sc.get('feedback') and n['op'] in ('unique', 'map', 'flatten'):
+            continue        # the guard of a feedback cycle stays (the property speaks of guarded feedback edges)
         if n['op'] in ('filter', 'buffer', 'delay', 'rate_limit', 'latest', 'slice', 'unique') or \
                 (n['op'] == 'map' and n['fn'][0] == 'ident'):
             c = clone()
